@@ -46,13 +46,21 @@ VC18(e) == LET d == Docs[e.di] IN
        ELSE IF IsoAncestors(d, e.from, e.to) = {} THEN "skip:not-inside-isolating"
        ELSE IF e.res.kind # "ok" THEN "skip:raised"
        ELSE IF ~Balanced(e.out) THEN "bad:ResultNotWellFormed"
-       ELSE IF \E o \in IsoAncestors(d, e.from, e.to) : ~IsoPreserved(d, e.out, o) THEN "bad:IsolatingBoundaryCrossed"
+       ELSE IF \A o \in IsoAncestors(d, e.from, e.to) : IsoPreserved(d, e.out, o) THEN "ok"
+       \* replace_range_with at a cursor position first looks for a nearby position where the node
+       \* can be inserted (insert_point); that search does not stop at isolating boundaries
+       ELSE IF e.op = "replace_range_with" /\ e.from = e.to
+               /\ \E p \in 0..Len(d) : Unflag(e.out) = Unflag(SubSeq(d, 1, p) \o Inner(Slices[e.si]) \o SubSeq(d, p + 1, Len(d)))
+            THEN "bad:InsertedOutsideIsolating"
+       ELSE IF \A o \in IsoAncestors(d, e.from, e.to) : IsoPreserved(d, e.out, o) \/ IsoIntactButLeaky(d, e.out, o)
+            THEN "bad:ContentPlacedOutsideIsolating"
+       ELSE IF TRUE THEN "bad:IsolatingNodeRemovedOrChanged"
        ELSE "ok"
   ELSE \* helpers: lift targets and splits never cross an isolating boundary
        IF ~DocOKTab[e.di] THEN "skip:pre"
        ELSE IF e.res.kind # "ok" THEN "skip:raised"
        ELSE IF e.helper = "lift_target"
-       THEN LET iso == IsoAncestors(d, e.from, e.to) IN
+       THEN LET iso == IsoAncestors(d, e.rstart, e.rend) IN   \* the block range that would be lifted
             IF iso = {} THEN "skip:not-inside-isolating"
             ELSE IF e.res.none THEN "ok"
             ELSE IF \E o \in iso : e.res.val < Depth(d, o) THEN "bad:LiftCrossesIsolating" ELSE "ok"
